@@ -415,7 +415,32 @@ def e2e_worker(case):
     with tempfile.TemporaryDirectory(dir=common.SCRATCH, prefix="c13_") as d:
         kinds = {"snp": 5, "mnp": 1, "ins": 2, "del": 3}
         y, desc = gendb.write_db(d, rng, name="GEN", strands=case["strands"], simulation_friendly=case["friendly"], pseudogene=case["pseudogene"],
-                                 deletion=case["deletion"], fusions=(), n_alleles=rng.choice([4, 5, 6]), length=rng.choice([300, 400, 500]), kinds=kinds)
+                                 deletion=case["deletion"], fusions=("left",) if case.get("plant_brk") else (), n_alleles=rng.choice([4, 5, 6]),
+                                 length=rng.choice([300, 400, 500]), kinds=kinds)
+        fusion_spec = None
+        if case.get("plant_brk"):
+            # a fusion whose gene part starts at region R, and an allele defined by a substitution on the FIRST base of R (transcription
+            # order): whether the fusion's partial allele keeps that variant is decided by the region label of a region-border base,
+            # which is the first base of its genome interval on one strand and the last on the other
+            N = len(desc["refseq"])
+            F = next((a for a, v in desc["alleles"].items() if v["kind"] == "left_fusion"), None)
+            if F is None:
+                return dict(out, skipped="no-fusion")
+            brk = desc["alleles"][F]["brk"]
+            b0 = desc["builds"]["hg19"]
+            gs, ge = b0["regions"][brk][0]
+            first = gs if b0["strand"] == "+" else ge - 1
+            i = next((k for k in range(N) if gendb._to_genome(b0, N, k, "A>C")[0] == first), None)
+            if i is None or any(abs(v[0] - i) < 4 for v in desc["variants"]):
+                return dict(out, skipped="no-room-at-breakpoint")
+            ref = desc["refseq"][i]
+            sop = f"{ref}>{[c for c in 'ACGT' if c != ref][case['dbseed'] % 3]}"
+            desc["alleles"]["83.001"] = {"kind": "normal", "brk": None, "variants": [[i, sop, "-", "functional"]], "label": None,
+                                         "major": "83", "functional": [[i, sop]]}
+            for b in desc["builds"].values():
+                b["alleles"]["83.001"] = [list(gendb._to_genome(b, N, i, sop))]
+            open(y, "w").write(gendb._yaml(desc))
+            fusion_spec = F + "#83.001"
         if case.get("plant_same_site"):
             # DESIGN.md section 5 item 10: one allele with a substitution, one with a longer deletion starting at the same RefSeq base
             N = len(desc["refseq"])
@@ -453,8 +478,10 @@ def e2e_worker(case):
             alleles = ["80.001", "81.001"]
         elif case.get("plant_edge"):
             alleles = ["82.001"] + alleles[1:]
+        elif fusion_spec:
+            alleles = [fusion_spec, rng.choice(["1.001", "83.001"])]
         out["alleles"] = alleles
-        kinds_planted = {("ins" if v[1].startswith("ins") else "del" if v[1].startswith("del") else "sub") for al in alleles for v in desc["alleles"][al]["variants"]}
+        kinds_planted = {("ins" if v[1].startswith("ins") else "del" if v[1].startswith("del") else "sub") for al in alleles for part in al.split("#") for v in desc["alleles"][part]["variants"]}
         out["planted_has_insertion"] = "ins" in kinds_planted
         out["planted_has_deletion"] = "del" in kinds_planted
         L, step = case["L_step"]
@@ -499,7 +526,7 @@ def e2e_worker(case):
         # is anchored at the other end of its footprint on the minus strand, so it can land on the site of a neighbouring substitution)
         def merged(build):
             n = len(desc["refseq"])
-            vs = sorted({(v[0], v[1]) for al in alleles for v in desc["alleles"][al]["variants"]})
+            vs = sorted({(v[0], v[1]) for al in alleles for part in al.split("#") for v in desc["alleles"][part]["variants"]})
             site = {v: gendb._to_genome(desc["builds"][build], n, v[0], v[1])[0] for v in vs}
             return sorted([list(a), list(b)] for i, a in enumerate(vs) for b in vs[i + 1:] if site[a] == site[b])
         out["planted_site_merge_differs"] = merged("hg19") != merged("hg38")
@@ -525,6 +552,10 @@ def generated_stream(chk, n, timeout_s):
         # last on the other): the borders of the RefSeq window are where the coordinate handling of the two builds differs
         c = gen_case(rng, f"edge-{k}")
         c.update(strands=["+-", "-+", "++", "--"][k], friendly=True, plant_edge=True, n_copies=2, indelpost=(k % 2 == 0))
+        cases.append(c)
+    for k in range(min(4, n)):
+        c = gen_case(rng, f"brk-{k}")
+        c.update(strands=["+-", "-+", "++", "--"][k], friendly=True, plant_brk=True, pseudogene=True, deletion=False, n_copies=2, indelpost=(k % 2 == 0), evidence="mirrored")
         cases.append(c)
     ctx = mp.get_context("fork")
     results = []
